@@ -649,7 +649,8 @@ def check_lmtd_guard(ctx: CheckContext, p: Program, r: Resolver, rule: str = "LM
                 if isinstance(c, ast.Call) and isinstance(c.func, ast.Attribute) and c.func.attr == "log" and c.args \
                         and isinstance(c.args[0], ast.BinOp) and isinstance(c.args[0].op, ast.Div) \
                         and isinstance(c.args[0].left, ast.Name) and isinstance(c.args[0].right, ast.Name):
-                    names = [x.id for x in (c.args[0].left, c.args[0].right) if x.id in params]
+                    # the two end differences: parameters, or locals computed in this function (a "fast path" that takes the logarithm itself)
+                    names = [x.id for x in (c.args[0].left, c.args[0].right)]
                     if len(set(names)) >= 2:
                         log_stmt, log_params = st, sorted(set(names))
             if log_stmt is not None:
@@ -657,9 +658,9 @@ def check_lmtd_guard(ctx: CheckContext, p: Program, r: Resolver, rule: str = "LM
         if log_stmt is None:
             continue
         n += 1
-        guarded, weak, unknown = _positivity_guards(r, fi, log_stmt, params)
+        guarded, weak, unknown = _positivity_guards(r, fi, log_stmt, list(params) + log_params)
         missing = [pn for pn in log_params if pn not in guarded]
-        if missing and fi.name.startswith("_"):
+        if missing and fi.name.startswith("_") and all(pn in params for pn in missing):
             # private helper: the refusal may live in the callers
             callers = []
             for g in mod_funcs:
